@@ -237,3 +237,229 @@ Proof.
 Qed.
 
 End Sim.
+
+(* ---- (4) reads ---- *)
+Definition erase (e : option entry) : option entry :=
+  match e with Some (Val _) => Some (Val 0) | Some Tomb => Some Tomb | None => None end.
+Definition erase_r (r : rres) : rres := match r with RFound u _ => RFound u 0 | _ => r end.
+
+(* the resolver's choice does not depend on the value ids *)
+Lemma read_spec_erase par ent v r :
+  read_spec par ent v r -> read_spec par (fun u => erase (ent u)) v (erase_r r).
+Proof.
+  set (ent' := fun u => erase (ent u)).
+  assert (HP : forall u, hasP ent u <-> hasP ent' u).
+  { intro u. unfold hasP, ent', erase. destruct (ent u) as [[x|]|]; split; congruence. }
+  assert (IV : forall u, is_val (ent' u) = is_val (ent u)).
+  { intro u. unfold ent', erase. destruct (ent u) as [[x|]|]; reflexivity. }
+  assert (FR : forall u, frontier par ent v u <-> frontier par ent' v u).
+  { intro u. unfold frontier. split; intros (A & H & N); (split; [exact A|split; [apply HP; exact H|]]);
+      intros w Aw Hw; apply N; auto; apply HP; exact Hw. }
+  assert (LV : forall u, livef par ent v u <-> livef par ent' v u).
+  { intro u. unfold livef. rewrite IV. now rewrite FR. }
+  destruct r as [u x| | |]; simpl; auto.
+  - intros (L & E & U). split; [now apply LV|]. split; [unfold ent', erase; now rewrite E|].
+    intros y Hy. apply U. now apply LV.
+  - intros N y Hy. apply (N y). now apply LV.
+  - intros (y & z & Hne & Ly & Lz). exists y, z. split; [exact Hne|split; now apply LV].
+Qed.
+
+Lemma sorted_keys_nodup s : sorted s -> NoDup (map fst s).
+Proof.
+  induction 1 as [|a s Hs IH Ha]; simpl; constructor; [|exact IH].
+  intro H. apply in_map_iff in H as (e & E & He). rewrite Forall_forall in Ha. specialize (Ha e He).
+  unfold key_lt, lex_lt in Ha. rewrite E, lex_compare_refl in Ha. discriminate.
+Qed.
+
+Lemma NoDup_map_in {A B} (f : A -> B) l :
+  (forall x y, In x l -> In y l -> f x = f y -> x = y) -> NoDup l -> NoDup (map f l).
+Proof.
+  intros Inj ND. induction ND as [|a l Hn ND IH]; simpl; constructor.
+  - intro H. apply in_map_iff in H as (y & E & Hy). assert (y = a) by (apply Inj; [now right|now left|exact E]).
+    subst. contradiction.
+  - apply IH. intros x y Hx Hy. apply Inj; now right.
+Qed.
+
+Lemma find_unique {A} (p : A -> bool) l x :
+  In x l -> p x = true -> (forall y, In y l -> p y = true -> y = x) -> find p l = Some x.
+Proof.
+  intros I P U. induction l as [|a l IH]; [contradiction|]. simpl.
+  destruct (p a) eqn:Pa.
+  - f_equal. apply U; [now left|exact Pa].
+  - destruct I as [->|I]; [congruence|]. apply IH; [exact I|]. intros y Hy. apply U. now right.
+Qed.
+
+Section Reads.
+Variable i : N.
+Variable enc : N -> bytes.
+Variable venc : N -> bytes.
+Hypothesis Hi : id_ok i.
+Hypothesis enc_inj : forall k1 k2, enc k1 = enc k2 -> k1 = k2.
+Hypothesis venc_nonempty : forall x, venc x <> [].
+
+Notation dk := (dkey i enc).
+Notation tk := (tkey i enc).
+Notation Ref := (Refines i enc venc).
+
+Variable c : core.
+Variable s : KV.store.
+Hypothesis R : Ref c s.
+Hypothesis I : CoreInv c.
+
+Let Hs : sorted s := rf_sorted i enc venc c s R.
+
+(* the keys a point read of [enc k] looks at: the data or tombstone key of every version that
+   has an entry *)
+Lemma key_versions_char k key :
+  In key (get_key_versions_exact i (enc k) s) <->
+  exists u, id_ok u /\ ((key = dk k u /\ kv_get (dk k u) s <> None) \/ (key = tk k u /\ kv_get (tk k u) s <> None)).
+Proof.
+  rewrite get_key_versions_exact_spec by exact Hs. unfold entries_of. split.
+  - intro H. apply in_map_iff in H as (e & <- & He). apply filter_In in He as [He P].
+    apply andb_true_iff in P as [P1 P2]. apply Nat.eqb_eq in P2.
+    pose proof (prefix_of_instance _ _ _ P1) as O.
+    destruct (rf_keys i enc venc c s R e He O) as (k' & u & Hu & [E|E]).
+    + rewrite E in P1, P2. unfold dkey, construct_data_key in P1, P2.
+      destruct (exact_entry_is_own i (enc k) i (enc k') u 0 n_MarkData Hi Hi P1 P2) as [_ EK].
+      apply enc_inj in EK. subst k'. exists u. split; [exact Hu|left]. split; [exact E|].
+      rewrite <- E. destruct e as [a b]. simpl. rewrite (in_kv_get a b s Hs He). discriminate.
+    + rewrite E in P1, P2. unfold tkey, tombstone_key in P1, P2.
+      destruct (exact_entry_is_own i (enc k) i (enc k') u 0 n_MarkTombstone Hi Hi P1 P2) as [_ EK].
+      apply enc_inj in EK. subst k'. exists u. split; [exact Hu|right]. split; [exact E|].
+      rewrite <- E. destruct e as [a b]. simpl. rewrite (in_kv_get a b s Hs He). discriminate.
+  - intros (u & Hu & [[-> H]|[-> H]]).
+    + destruct (kv_get (dk k u) s) as [b|] eqn:G; [|contradiction]. apply kv_get_in in G; [|exact Hs].
+      apply in_map_iff. exists (dk k u, b). split; [reflexivity|]. apply filter_In. split; [exact G|].
+      cbn [fst]. unfold dkey, construct_data_key.
+      destruct (own_entry_is_exact i (enc k) u 0 n_MarkData) as [Y1 Y2]. rewrite Y1. apply Nat.eqb_eq in Y2. now rewrite Y2.
+    + destruct (kv_get (tk k u) s) as [b|] eqn:G; [|contradiction]. apply kv_get_in in G; [|exact Hs].
+      apply in_map_iff. exists (tk k u, b). split; [reflexivity|]. apply filter_In. split; [exact G|].
+      cbn [fst]. unfold tkey, tombstone_key.
+      destruct (own_entry_is_exact i (enc k) u 0 n_MarkTombstone) as [Y1 Y2]. rewrite Y1. apply Nat.eqb_eq in Y2. now rewrite Y2.
+Qed.
+
+Lemma key_entry_dkey k u : id_ok u -> key_entry (dk k u) = (u, Val 0).
+Proof.
+  intro Hu. unfold key_entry, key_version, dkey, construct_data_key.
+  rewrite version_of_data_key by exact Hu. now rewrite marker_of_data_key.
+Qed.
+Lemma key_entry_tkey k u : id_ok u -> key_entry (tk k u) = (u, Tomb).
+Proof.
+  intro Hu. unfold key_entry, key_version, tkey, tombstone_key.
+  rewrite version_of_data_key by exact Hu. now rewrite marker_of_data_key.
+Qed.
+
+Lemma entry_cases k u : id_ok u ->
+  match ent_of c k u with
+  | Some (Val x) => kv_get (dk k u) s = Some (venc x) /\ kv_get (tk k u) s = None
+  | Some Tomb => kv_get (dk k u) s = None /\ kv_get (tk k u) s = Some []
+  | None => kv_get (dk k u) s = None /\ kv_get (tk k u) s = None
+  end.
+Proof. intro Hu. exact (rf_entries i enc venc c s R k u Hu). Qed.
+
+(* the per-version entry map the resolver builds from those keys = the abstract entries, value
+   ids erased *)
+Lemma kvv_of_key_versions k u :
+  kvv_of (map key_entry (get_key_versions_exact i (enc k) s)) u = erase (ent_of c k u).
+Proof.
+  set (L := get_key_versions_exact i (enc k) s).
+  assert (NDL : NoDup L).
+  { unfold L. rewrite get_key_versions_exact_spec by exact Hs. unfold entries_of.
+    apply sorted_keys_nodup. apply sorted_filter. exact Hs. }
+  assert (CH := key_versions_char k).
+  (* the version determines the key within L *)
+  assert (INJ : forall x y, In x L -> In y L -> fst (key_entry x) = fst (key_entry y) -> x = y).
+  { intros x y Hx Hy E. apply CH in Hx as (u1 & H1 & Cx). apply CH in Hy as (u2 & H2 & Cy).
+    assert (EU : u1 = u2).
+    { destruct Cx as [[-> _]|[-> _]], Cy as [[-> _]|[-> _]];
+        rewrite ?key_entry_dkey, ?key_entry_tkey in E by assumption; exact E. }
+    subst u2. pose proof (entry_cases k u1 H1) as EC.
+    destruct Cx as [[-> Nx]|[-> Nx]], Cy as [[-> Ny]|[-> Ny]]; try reflexivity; exfalso;
+      destruct (ent_of c k u1) as [[x0|]|]; destruct EC as [E1 E2]; congruence. }
+  assert (ND : NoDup (map fst (rev (map key_entry L)))).
+  { rewrite map_rev, map_map. apply NoDup_rev. apply NoDup_map_in; assumption. }
+  unfold kvv_of.
+  destruct (ent_of c k u) as [[x|]|] eqn:EN.
+  - assert (Hu : id_ok u) by (apply (rf_versions i enc venc c s R k u); congruence).
+    pose proof (entry_cases k u Hu) as EC. rewrite EN in EC. destruct EC as [E1 _].
+    apply assoc_nodup; [exact ND|]. apply in_rev. rewrite rev_involutive.
+    rewrite <- (key_entry_dkey k u Hu). apply in_map. apply CH. exists u. split; [exact Hu|left].
+    split; [reflexivity|congruence].
+  - assert (Hu : id_ok u) by (apply (rf_versions i enc venc c s R k u); congruence).
+    pose proof (entry_cases k u Hu) as EC. rewrite EN in EC. destruct EC as [_ E2].
+    apply assoc_nodup; [exact ND|]. apply in_rev. rewrite rev_involutive.
+    rewrite <- (key_entry_tkey k u Hu). apply in_map. apply CH. exists u. split; [exact Hu|right].
+    split; [reflexivity|congruence].
+  - simpl. destruct (Dag.assoc u (rev (map key_entry L))) as [e|] eqn:A; [|reflexivity]. exfalso.
+    apply assoc_In in A. rewrite <- in_rev in A.
+    apply in_map_iff in A as (key & EK & HK). apply CH in HK as (u' & Hu' & Ck).
+    pose proof (entry_cases k u' Hu') as EC.
+    assert (u' = u).
+    { destruct Ck as [[-> _]|[-> _]]; rewrite ?key_entry_dkey, ?key_entry_tkey in EK by assumption;
+        inversion EK; reflexivity. }
+    subst u'. rewrite EN in EC. destruct EC as [E1 E2].
+    destruct Ck as [[_ N1]|[_ N1]]; contradiction.
+Qed.
+
+(* the resolver over the stored keys answers what the abstract read answers, value id erased *)
+Lemma read_over_keys k v :
+  read (parents_of (dag c)) (kvv_of (map key_entry (get_key_versions_exact i (enc k) s))) (fuel_of c) (fuel_of c) v
+  = erase_r (get c k v).
+Proof.
+  set (E := kvv_of (map key_entry (get_key_versions_exact i (enc k) s))).
+  apply (read_spec_det (cpar c) E v).
+  - eapply (read_correct (cpar c) (crank c)).
+    + apply crank_par. exact I.
+    + intro x. apply crank_fuel.
+    + apply crank_fuel.
+  - eapply read_spec_agree; [|apply read_spec_erase; apply get_spec; exact I].
+    intros u _. unfold E. symmetry. apply kvv_of_key_versions.
+Qed.
+
+(* (4a) a point read of the byte store = the abstract GET, in the point read's conventions *)
+Lemma refine_point_get k v :
+  point_get (best_of_core c v) (rcx i v) (enc k) s = point_of venc (get c k v).
+Proof.
+  unfold point_get, point_key, best_of_core, best_core, rcx. cbn [cx_instance].
+  rewrite read_over_keys.
+  pose proof (get_spec c k v I) as SP.
+  destruct (get c k v) as [u x| | |] eqn:G; cbn [erase_r point_of]; try reflexivity.
+  destruct SP as (_ & EU & _). fold (cpar c) in EU.
+  assert (Hu : id_ok u) by (apply (rf_versions i enc venc c s R k u); congruence).
+  pose proof (entry_cases k u Hu) as EC. rewrite EU in EC. destruct EC as [E1 E2].
+  rewrite (find_unique _ _ (dk k u)).
+  - rewrite E1. pose proof (venc_nonempty x). destruct (venc x); [contradiction|reflexivity].
+  - apply key_versions_char. exists u. split; [exact Hu|left]. split; [reflexivity|congruence].
+  - unfold dkey, construct_data_key, key_version. rewrite version_of_data_key by exact Hu.
+    rewrite marker_of_data_key, N.eqb_refl. reflexivity.
+  - intros y Hy Py. apply key_versions_char in Hy as (u' & Hu' & Cy).
+    apply andb_true_iff in Py as [P1 P2]. apply N.eqb_eq in P1. apply negb_true_iff in P2.
+    destruct Cy as [[-> _]|[-> _]].
+    + unfold key_version, dkey, construct_data_key in P1. rewrite version_of_data_key in P1 by exact Hu'. now subst.
+    + unfold tkey, tombstone_key in P2. rewrite marker_of_data_key in P2. vm_compute in P2. discriminate.
+Qed.
+
+(* existence as HEAD reports it *)
+Lemma refine_point_exists k v :
+  point_exists (best_of_core c v) (rcx i v) (enc k) s
+  = match get c k v with RFound _ _ => true | _ => false end.
+Proof.
+  unfold point_exists, point_key, best_of_core, best_core, rcx. cbn [cx_instance].
+  rewrite read_over_keys.
+  pose proof (get_spec c k v I) as SP.
+  destruct (get c k v) as [u x| | |] eqn:G; cbn [erase_r]; try reflexivity.
+  destruct SP as (_ & EU & _).
+  assert (Hu : id_ok u) by (apply (rf_versions i enc venc c s R k u); congruence).
+  pose proof (entry_cases k u Hu) as EC. rewrite EU in EC. destruct EC as [E1 E2].
+  rewrite (find_unique _ _ (dk k u)); [reflexivity| | |].
+  - apply key_versions_char. exists u. split; [exact Hu|left]. split; [reflexivity|congruence].
+  - unfold dkey, construct_data_key, key_version. rewrite version_of_data_key by exact Hu.
+    rewrite marker_of_data_key, N.eqb_refl. reflexivity.
+  - intros y Hy Py. apply key_versions_char in Hy as (u' & Hu' & Cy).
+    apply andb_true_iff in Py as [P1 P2]. apply N.eqb_eq in P1. apply negb_true_iff in P2.
+    destruct Cy as [[-> _]|[-> _]].
+    + unfold key_version, dkey, construct_data_key in P1. rewrite version_of_data_key in P1 by exact Hu'. now subst.
+    + unfold tkey, tombstone_key in P2. rewrite marker_of_data_key in P2. vm_compute in P2. discriminate.
+Qed.
+
+End Reads.
